@@ -52,6 +52,14 @@ class Tok:
             return _K(self)
         raise Unsupported(f'{self.name}.{name}')
 
+    def __pyvc_getitem__(self, eng, s):
+        if isinstance(s, slice):
+            return Tok(f'{self.name}[{s.start if s.start is not None else ""}:{s.stop if s.stop is not None else ""}]')
+        raise Unsupported(f'{self.name}[{s}]')
+
+    def __pyvc_from_bytes__(self, eng, order):
+        return Tok(f'int_{order}({self.name})')
+
     def __pyvc_cmp__(self, eng, op, other, refl):
         if isinstance(op, (ast.Eq, ast.NotEq)):
             same = isinstance(other, Tok) and other.name == self.name
